@@ -31,7 +31,7 @@ def parseItem (s : String) : Option Item :=
 def parseKind (s : String) : Option (Kind × Bool) :=
   if s = "obtains" then some (.obtain, false) else if s = "obtaina" then some (.obtain, true)
   else if s = "renews" then some (.renew, false) else if s = "renewa" then some (.renew, true)
-  else if s = "manages" then some (.manage, false) else none
+  else if s = "manages" then some (.manage, false) else if s = "managea" then some (.manage, true) else none
 
 def mkInit (initial : String) (kinds : List (Kind × Bool)) : St :=
   { lock := none, stored := if initial = "none" then none else some 0, next := 1
